@@ -215,6 +215,10 @@ pub struct CrashSpec {
     /// second-level crash during the recovery of this image (events of the recovery trace kept)
     #[serde(default)]
     pub nested: Option<Box<CrashSpec>>,
+    /// second crash after the recovered store ran the continuation workload (k indexes the
+    /// continuation's trace; unsynced bytes written by the dead first process are still unsynced)
+    #[serde(default)]
+    pub after_continuation: Option<Box<CrashSpec>>,
 }
 
 /// Apply a crash spec to the disk state at the crash point.
